@@ -101,7 +101,7 @@ def oracle_quiescent(h):
         if sn is None:
             continue
         if sn['in_flight'] != 0 or sorted(sn['free']) != list(range(sn['highest'] + 1)):
-            out.append(('not-quiescent.' + q, 'all sent requests answered but in_flight=%d free=%r highest=%d (after %s)'
+            out.append(('not-quiescent.' + ('timeout-response-race' if h.race_exercised else q), 'all sent requests answered but in_flight=%d free=%r highest=%d (after %s)'
                         % (sn['in_flight'], sn['free'], sn['highest'], q), k))
             break
     return out
